@@ -414,6 +414,13 @@ func childMain(batchFile, outFile, treeDir string, from int) {
 		must(w.Flush())
 		readLog = readLog[:0]
 		res := runCase(&cases[i], root)
+		// the further generations: the same path, written again, new loaders, the same process
+		for k := range cases[i].Then {
+			rmTree(root)
+			must(os.MkdirAll(root, 0o755))
+			readLog = readLog[:0]
+			res.Then = append(res.Then, runCase(&cases[i].Then[k], root))
+		}
 		res.Idx = i
 		rmTree(root)
 		line, err := json.Marshal(res)
